@@ -307,7 +307,11 @@ def factorize_1d(
         labels = pd.Index(labels, name=values.name)
         return codes, labels
     elif pd.api.types.is_bool_dtype(values):
-        codes = np.asarray(values).view("int8")
+        if isinstance(values.dtype, pd.BooleanDtype):
+            # masked booleans: a missing key gets the null code
+            codes = values.to_numpy(dtype="int8", na_value=-1)
+        else:
+            codes = np.asarray(values).view("int8")
         labels = pd.Index([False, True], name=values.name)
         return codes, labels
     else:
